@@ -349,7 +349,6 @@ func gi(n string) int { return verif_ghost_int(n) }
 //@   modifies ghost("mdToWrite"), ghost("mdTrunc")
 //@   loop 0 (rangeindex int, lenRemaining uint32)
 //@     invariant -1 <= rangeindex && rangeindex < len(dirents) && 0 <= direntCount && direntCount <= rangeindex+1 && uint64(bufToWrite)+uint64(lenRemaining) == uint64(bufLen) && truncatedLen == 0
-//@   nosafety
 
 //@ func writeDirents(buf []byte, dirents []experimentalsys.Dirent, d_next uint64, direntCount int, truncatedLen uint32)
 //@   trusted
